@@ -458,6 +458,37 @@ func classifyConsumeLoop(h *ssa.BasicBlock, body map[*ssa.BasicBlock]bool, input
 	if readsPerIter != 1 {
 		return "", fmt.Sprintf("%d reads per iteration", readsPerIter)
 	}
+	underHasPrefix := func(pfx ssa.Value) bool {
+		for _, g := range rawGuardsAt(h) {
+			if gc, ok := g.Cond.(*ssa.Call); ok && g.Positive && calleeName(&gc.Call) == "bytes.HasPrefix" && len(gc.Call.Args) == 2 &&
+				sliceRoot(gc.Call.Args[0]) == input && (gc.Call.Args[1] == pfx || sameValue(gc.Call.Args[1], pfx)) {
+				if _, isSl := gc.Call.Args[0].(*ssa.Slice); !isSl {
+					return true
+				}
+			}
+		}
+		return false
+	}
+	lenArg := func(v ssa.Value) ssa.Value {
+		if call, ok := v.(*ssa.Call); ok {
+			if bi, ok := call.Call.Value.(*ssa.Builtin); ok && bi.Name() == "len" {
+				return call.Call.Args[0]
+			}
+		}
+		return nil
+	}
+	// `for range P { ReadByte }` under HasPrefix(input, P): one byte per byte of the matched prefix
+	for _, in := range h.Instrs {
+		if bo, ok := in.(*ssa.BinOp); ok && isRangeIndex(bo) {
+			for _, r := range referrers(bo) {
+				if cmp, isCmp := r.(*ssa.BinOp); isCmp && cmp.Op == token.LSS && cmp.X == ssa.Value(bo) && cmp.Block() == h {
+					if pfx := lenArg(cmp.Y); pfx != nil && underHasPrefix(pfx) {
+						return "prefix", "one read per byte of P (range over P) under HasPrefix(input, P)"
+					}
+				}
+			}
+		}
+	}
 	// the controlling phi
 	for _, in := range h.Instrs {
 		phi, ok := in.(*ssa.Phi)
@@ -569,6 +600,10 @@ func classifyConsumeLoop(h *ssa.BasicBlock, body map[*ssa.BasicBlock]bool, input
 					}
 					if isRangeIndexOver(init, input) {
 						return "", "countdown `> 0` from the scan index reads one byte fewer than the match"
+					}
+					// for n := len(P); n > 0; n-- under HasPrefix(input, P)
+					if pfx := lenArg(init); pfx != nil && underHasPrefix(pfx) {
+						return "prefix", "counts len(P) down to zero under HasPrefix(input, P)"
 					}
 					return "", "countdown `> 0` from " + valName(init)
 				}
